@@ -8,6 +8,15 @@ pub(crate) mod vstubs {
         false
     }
 
+    /// alloc::fmt::format -> fixed one-byte placeholder (formatting machinery is far beyond
+    /// CBMC's reach; used only where the formatted text is not the subject).
+    pub fn format_placeholder(_args: core::fmt::Arguments<'_>) -> String {
+        // spare capacity so that appending to the formatted text never reallocates
+        let mut s = String::with_capacity(64);
+        s.push('#');
+        s
+    }
+
     /// rand::random::<T>() -> arbitrary bit pattern of T (used for integer / byte-array T only).
     pub fn any_random<T>() -> T
     where
